@@ -523,11 +523,13 @@ def encode_time_na(program, n, signed):
     takes_signed = len(params) >= 3
     if takes_signed:
         bind[params[2]] = C(signed)
+    # the helper partially evaluated at value = None: the pattern is whatever constant every remaining path returns
+    bind[params[0]] = NONE
     rows = residual(program, 'encode_time', bind)
-    none_cond = cn(('cmp', 'is', V, NONE))
-    for (k, gs, v, ln) in rows:
-        if k == 'return' and gs == (none_cond,) and sym.is_const(v):
-            return v[1], ln, takes_signed
+    outs = [(k, gs, v, ln) for (k, gs, v, ln) in rows if k in ('return', 'raise')]
+    vals = {v for (k, gs, v, ln) in outs if k == 'return'}
+    if outs and all(k == 'return' for (k, gs, v, ln) in outs) and len(vals) == 1 and sym.is_const(next(iter(vals))) and next(iter(vals)) != NONE:
+        return next(iter(vals))[1], outs[0][3], takes_signed
     return None, (rows[0][3] if rows else 0), takes_signed
 
 def sent_sign_agree(chk, program, sites=None):
